@@ -9,7 +9,8 @@ for f in sorted(glob.glob('/tmp/mut_survivors_*.json')):
 surv.sort(key=lambda m: (m['file'], m['start'], m['new']))
 random.seed(5)
 random.shuffle(surv)
-surv = surv[:size][k::nw]
+skip = int(os.environ.get('MUT_SKIP', '0'))
+surv = surv[skip:skip + size][k::nw]
 W = '/tmp/mutc%d' % k
 out = []
 for m in surv:
@@ -35,6 +36,6 @@ for m in surv:
     m['checks'] = res
     m['killed'] = any(v['exit'] == 1 for v in res.values())
     out.append(m)
-    json.dump(out, open('/tmp/mut_checked_%d.json' % k, 'w'), indent=0)
+    json.dump(out, open('/tmp/mut_checked%s_%d.json' % (os.environ.get('MUT_TAG', ''), k), 'w'), indent=0)
 shutil.rmtree(W, ignore_errors=True)
 print('worker', k, 'done', len(out), 'killed', sum(1 for m in out if m['killed']))
